@@ -1,59 +1,9 @@
-(* Lemmas about CPython's remove-while-iterating loop (Lib/PyList.v). *)
+(* The remove-from-the-list-while-iterating-a-copy loop of the context managers (Lib/PyList.v) is the filter. *)
 From Coq Require Import ZArith List Bool Lia ZifyBool.
 From Cli Require Import Model.SubBase Lib.PyList Proofs.SetLemmas.
 Import ListNotations.
 Open Scope Z_scope.
 
-Lemma remove_first_length x l : (length (remove_first x l) <= length l)%nat.
-Proof. induction l as [|y l IH]; cbn; [lia|]. destruct (x =? y); cbn; lia. Qed.
-
-Lemma remove_first_incl x l y : In y (remove_first x l) -> In y l.
-Proof.
-  induction l as [|z l IH]; cbn; [tauto|]. destruct (x =? z); cbn; [tauto|]. intros [H|H]; [left; exact H|right; exact (IH H)].
-Qed.
-
-(* the fuel of iter_remove is sufficient: the loop always terminates normally *)
-Lemma iter_remove_fuel_total p fuel : forall l i, (length l - i < fuel)%nat ->
-  exists l', iter_remove_fuel fuel p l i = Some l'.
-Proof.
-  induction fuel as [|k IH]; intros l i H; [lia|]. cbn [iter_remove_fuel].
-  destruct (nth_error l i) as [x|] eqn:N; [|eexists; reflexivity].
-  assert (Hi : (i < length l)%nat) by (apply nth_error_Some; congruence).
-  destruct (p x); apply IH; [pose proof (remove_first_length x l)|]; lia.
-Qed.
-Lemma iter_remove_total p l : exists l', iter_remove p l = Some l'.
-Proof. apply iter_remove_fuel_total. lia. Qed.
-
-(* survivors come from the original list *)
-Lemma iter_remove_fuel_incl p fuel : forall l i l', iter_remove_fuel fuel p l i = Some l' ->
-  forall y, In y l' -> In y l.
-Proof.
-  induction fuel as [|k IH]; intros l i l' H y Hy; [discriminate|]. cbn [iter_remove_fuel] in H.
-  destruct (nth_error l i) as [x|]; [|inversion H; subst; exact Hy].
-  destruct (p x); [|exact (IH _ _ _ H y Hy)]. apply (remove_first_incl x). exact (IH _ _ _ H y Hy).
-Qed.
-Lemma iter_remove_incl p l l' : iter_remove p l = Some l' -> forall y, In y l' -> In y l.
-Proof. apply iter_remove_fuel_incl. Qed.
-
-(* entries that do not satisfy the test are never removed *)
-Lemma remove_first_keeps x l y : x <> y -> In y l -> In y (remove_first x l).
-Proof.
-  intros NE. induction l as [|z l IH]; cbn; [tauto|]. destruct (x =? z) eqn:E.
-  - apply Z.eqb_eq in E. subst. intros [H|H]; [congruence|exact H].
-  - intros [H|H]; [left; exact H|right; exact (IH H)].
-Qed.
-Lemma iter_remove_fuel_keeps p fuel : forall l i l' y, iter_remove_fuel fuel p l i = Some l' ->
-  p y = false -> In y l -> In y l'.
-Proof.
-  induction fuel as [|k IH]; intros l i l' y H P Hy; [discriminate|]. cbn [iter_remove_fuel] in H.
-  destruct (nth_error l i) as [x|]; [|inversion H; subst; exact Hy].
-  destruct (p x) eqn:Px; [|exact (IH _ _ _ y H P Hy)].
-  apply (IH _ _ _ y H P). apply remove_first_keeps; [intros C; subst; congruence|exact Hy].
-Qed.
-Lemma iter_remove_keeps p l l' y : iter_remove p l = Some l' -> p y = false -> In y l -> In y l'.
-Proof. apply iter_remove_fuel_keeps. Qed.
-
-(* on a duplicate-free list `remove` deletes exactly the element under the iterator ... *)
 Lemma remove_first_at pre x rest : ~ In x pre -> remove_first x (pre ++ x :: rest) = pre ++ rest.
 Proof.
   induction pre as [|y pre IH]; intros H; cbn.
@@ -61,72 +11,25 @@ Proof.
   - destruct (x =? y) eqn:E; [apply Z.eqb_eq in E; subst; exfalso; apply H; left; reflexivity|].
     rewrite IH; [reflexivity|]. intros C. apply H. right. exact C.
 Qed.
-Lemma nth_error_at {A} (pre : list A) x rest : nth_error (pre ++ x :: rest) (length pre) = Some x.
-Proof. rewrite nth_error_app2 by lia. rewrite Nat.sub_diag. reflexivity. Qed.
-Lemma nth_error_end {A} (pre : list A) : nth_error (pre ++ []) (length pre) = None.
-Proof. apply nth_error_None. rewrite app_nil_r. lia. Qed.
 
-(* ... and the loop computes skip_filter: the element after a removed one is never examined *)
-Lemma iter_remove_fuel_nodup p fuel : forall rest pre, NoDup (pre ++ rest) -> (length rest < fuel)%nat ->
-  iter_remove_fuel fuel p (pre ++ rest) (length pre) = Some (pre ++ skip_filter p rest).
+(* after the copy's prefix `pre` has been visited, msg_list = (kept part of pre) ++ (unvisited suffix) *)
+Lemma copy_remove_from_spec p : forall suf pre,
+  copy_remove_from p suf (filter (fun x => negb (p x)) pre ++ suf) = filter (fun x => negb (p x)) (pre ++ suf).
 Proof.
-  induction fuel as [|k IH]; intros rest pre ND HF; [lia|]. cbn [iter_remove_fuel].
-  destruct rest as [|x r].
-  - rewrite nth_error_end. reflexivity.
-  - rewrite nth_error_at. cbn [skip_filter]. destruct (p x) eqn:P.
-    + rewrite remove_first_at by (apply NoDup_remove_2 in ND; intros C; apply ND; apply in_or_app; left; exact C).
-      apply NoDup_remove_1 in ND. destruct r as [|y r'].
-      * destruct k; [cbn in HF; lia|]. cbn [iter_remove_fuel].
-        replace (nth_error (pre ++ []) (S (length pre))) with (@None Z); [reflexivity|].
-        symmetry. apply nth_error_None. rewrite app_nil_r. lia.
-      * replace (pre ++ y :: r') with ((pre ++ [y]) ++ r') by (rewrite <- app_assoc; reflexivity).
-        replace (S (length pre)) with (length (pre ++ [y])) by (rewrite app_length; cbn; lia).
-        rewrite IH.
-        -- rewrite <- app_assoc. reflexivity.
-        -- rewrite <- app_assoc. exact ND.
-        -- cbn in HF. lia.
-    + replace (pre ++ x :: r) with ((pre ++ [x]) ++ r) by (rewrite <- app_assoc; reflexivity).
-      replace (S (length pre)) with (length (pre ++ [x])) by (rewrite app_length; cbn; lia).
-      rewrite IH.
-      * rewrite <- app_assoc. reflexivity.
-      * rewrite <- app_assoc. exact ND.
-      * cbn in HF. lia.
-Qed.
-Lemma iter_remove_nodup p l : NoDup l -> iter_remove p l = Some (skip_filter p l).
-Proof. intros H. exact (iter_remove_fuel_nodup p (S (length l)) l [] H (Nat.lt_succ_diag_r _)). Qed.
-
-Lemma no_adjacent_tail p x l : no_adjacent p (x :: l) = true -> no_adjacent p l = true.
-Proof. destruct l as [|y r]; [reflexivity|]. cbn [no_adjacent]. intros H. apply andb_true_iff in H. exact (proj2 H). Qed.
-
-Lemma no_adjacent_ext p q l : (forall x, p x = q x) -> no_adjacent p l = no_adjacent q l.
-Proof.
-  intros E. induction l as [|x r IH]; [reflexivity|]. destruct r as [|y r']; [reflexivity|].
-  change (negb (p x && p y) && no_adjacent p (y :: r') = negb (q x && q y) && no_adjacent q (y :: r')).
-  rewrite IH, !E. reflexivity.
+  induction suf as [|x suf IH]; intros pre.
+  - cbn. rewrite !app_nil_r. reflexivity.
+  - unfold copy_remove_from in *. cbn [fold_left]. destruct (p x) eqn:P.
+    + rewrite remove_first_at.
+      * rewrite IH. rewrite !filter_app. cbn [filter]. rewrite P. reflexivity.
+      * intros C. apply filter_In in C. rewrite P in C. destruct C; discriminate.
+    + replace (filter (fun y => negb (p y)) pre ++ x :: suf)
+        with (filter (fun y => negb (p y)) (pre ++ [x]) ++ suf)
+        by (rewrite filter_app; cbn [filter]; rewrite P; cbn [negb]; rewrite <- app_assoc; reflexivity).
+      rewrite IH. rewrite <- app_assoc. reflexivity.
 Qed.
 
-Lemma skip_filter_no_adjacent_n p n : forall l, (length l <= n)%nat -> no_adjacent p l = true ->
-  skip_filter p l = filter (fun x => negb (p x)) l.
-Proof.
-  induction n as [|n IH]; intros l HL HN.
-  - destruct l; [reflexivity|cbn in HL; lia].
-  - destruct l as [|x r]; [reflexivity|]. cbn [skip_filter filter]. destruct (p x) eqn:P; cbn [negb].
-    + destruct r as [|y r']; [reflexivity|]. cbn [no_adjacent] in HN. rewrite P in HN. cbn [andb] in HN.
-      apply andb_true_iff in HN. destruct HN as [H1 H2]. apply negb_true_iff in H1.
-      cbn [filter]. rewrite H1. cbn [negb]. f_equal. apply IH; [cbn in HL; lia|].
-      exact (no_adjacent_tail p y r' H2).
-    + f_equal. apply IH; [cbn in HL; lia|]. exact (no_adjacent_tail p x r HN).
-Qed.
-Lemma skip_filter_no_adjacent p l : no_adjacent p l = true -> skip_filter p l = filter (fun x => negb (p x)) l.
-Proof. apply (skip_filter_no_adjacent_n p (length l)). lia. Qed.
+Theorem copy_remove_filter p l : copy_remove p l = filter (fun x => negb (p x)) l.
+Proof. exact (copy_remove_from_spec p l []). Qed.
 
-Lemma nodupb_NoDup l : nodupb l = true -> NoDup l.
-Proof.
-  induction l as [|x r IH]; intros H; [constructor|]. cbn [nodupb] in H. apply andb_true_iff in H.
-  destruct H as [H1 H2]. constructor; [|exact (IH H2)]. apply negb_true_iff in H1. apply mem_false_iff. exact H1.
-Qed.
-
-(* the intended filter, under the syntactic side condition *)
-Lemma iter_remove_ideal p l : nodupb l = true -> no_adjacent p l = true ->
-  iter_remove p l = Some (filter (fun x => negb (p x)) l).
-Proof. intros H1 H2. rewrite (iter_remove_nodup p l (nodupb_NoDup l H1)), (skip_filter_no_adjacent p l H2). reflexivity. Qed.
+Lemma mem_copy_remove x p l : mem x (copy_remove p l) = mem x l && negb (p x).
+Proof. rewrite copy_remove_filter. apply mem_filter. Qed.
